@@ -128,6 +128,17 @@ let fork_gen = ref N0
 
 let fuel = nat_of_int 20000
 
+(* ---------- concurrency (Model/Conc.v) ---------- *)
+let conc : config option ref = ref None
+
+let obj_of_string = function
+  | "vis" -> OVis | "hid" -> OHid | "cnt" -> OCnt | "sadd" -> OSAdded | "srem" -> OSRemoved
+  | "sexe" -> OSExec | "sqty" -> OSQty | "sval" -> OSValue | "gen" -> OGen
+  | s -> failwith ("bad obj " ^ s)
+let string_of_obj = function
+  | OVis -> "vis" | OHid -> "hid" | OCnt -> "cnt" | OSAdded -> "sadd" | OSRemoved -> "srem"
+  | OSExec -> "sexe" | OSQty -> "sqty" | OSValue -> "sval" | OGen -> "gen"
+
 let ask o inc =
   print_string ("? " ^ string_of_order o ^ " " ^ string_of_n inc ^ "\n"); flush stdout;
   let l = input_line stdin in
@@ -179,6 +190,66 @@ let rebuild via (l : level) (listing : order list) : level =
     from_snapshot { sn_price = l.price; sn_vis = l.cvis; sn_hid = l.chid; sn_cnt = l.ccnt; sn_orders = listing }
   | "data" -> from_data l.price listing
   | _ -> failwith ("bad via " ^ via)
+
+let ooid_of_string s = if s = "-" then None else Some (oid_of_string s)
+let string_of_ooid = function None -> "-" | Some k -> string_of_oid k
+
+(* event token: fields separated by '~' *)
+let ev_of_fields = function
+  | [x] when String.length x > 3 && String.sub x 0 3 = "FA:" ->
+    (match String.split_on_char ':' x with
+     | [_; o; n; old] -> EFetchAdd (obj_of_string o, n_of_string n, n_of_string old)
+     | _ -> failwith ("bad event " ^ x))
+  | [x] when String.length x > 3 && String.sub x 0 3 = "FS:" ->
+    (match String.split_on_char ':' x with
+     | [_; o; n; old] -> EFetchSub (obj_of_string o, n_of_string n, n_of_string old)
+     | _ -> failwith ("bad event " ^ x))
+  | [x] when String.length x > 3 && String.sub x 0 3 = "LD:" ->
+    (match String.split_on_char ':' x with
+     | [_; o; v] -> ELoad (obj_of_string o, n_of_string v)
+     | _ -> failwith ("bad event " ^ x))
+  | ["INS"; o] -> EInsert (order_of_string o)
+  | ["REM"; k; r] -> ERemove (oid_of_string k, oorder_of_string r)
+  | ["GET"; k; r] -> EGet (oid_of_string k, oorder_of_string r)
+  | ["PUSH"; k] -> EPush (oid_of_string k)
+  | ["POP"; r] -> EPop (ooid_of_string r)
+  | ["ITER"; n] -> EIter (n_of_string n)
+  | l -> failwith ("bad event " ^ String.concat "~" l)
+
+let string_of_ev = function
+  | EFetchAdd (o, n, old) -> Printf.sprintf "FA:%s:%s:%s" (string_of_obj o) (string_of_n n) (string_of_n old)
+  | EFetchSub (o, n, old) -> Printf.sprintf "FS:%s:%s:%s" (string_of_obj o) (string_of_n n) (string_of_n old)
+  | ELoad (o, v) -> Printf.sprintf "LD:%s:%s" (string_of_obj o) (string_of_n v)
+  | EInsert o -> "INS~" ^ string_of_order o
+  | ERemove (k, r) -> "REM~" ^ string_of_oid k ^ "~" ^ string_of_oorder r
+  | EGet (k, r) -> "GET~" ^ string_of_oid k ^ "~" ^ string_of_oorder r
+  | EPush k -> "PUSH~" ^ string_of_oid k
+  | EPop r -> "POP~" ^ string_of_ooid r
+  | EIter n -> "ITER~" ^ string_of_n n
+
+let call_of_string s =
+  match String.split_on_char '~' s with
+  | ["ADD"; o] -> CAdd (order_of_string o)
+  | ["MATCH"; q; t] -> CMatch (n_of_string q, oid_of_string t)
+  | ["UPD"; u] -> CUpdate (update_of_string u)
+  | ["RV"] -> CReadVis | ["RH"] -> CReadHid | ["RC"] -> CReadCnt | ["LIST"] -> CList
+  | ["NEXT"] -> CNext
+  | _ -> failwith ("bad call " ^ s)
+
+let string_of_result_semi r =
+  String.concat ";" (String.split_on_char ' ' (string_of_result r))
+
+let string_of_ret = function
+  | RetAdd o -> "add:" ^ string_of_order o
+  | RetMatch r -> "match:" ^ string_of_result_semi r
+  | RetUpd (UOk o) -> "upd:ok:" ^ string_of_oorder o
+  | RetUpd UErr -> "upd:err"
+  | RetNum n -> "num:" ^ string_of_n n
+  | RetList l -> "list:" ^ list_str string_of_order l
+
+let thread_rets (t : thread) =
+  (* returns of completed calls, plus the current one if it is Done *)
+  t.th_rets @ (match t.th_pc with Done r -> [r] | _ -> [])
 
 let handle line =
   match String.split_on_char ' ' line with
@@ -241,6 +312,44 @@ let handle line =
     let f = rebuild via ses.lvl os in
     fork := Some f; fork_gen := N0;
     Printf.sprintf "= perm=%d %s" (if okp then 1 else 0) (string_of_state f)
+  | ["CTHREADS"; ts] ->
+    let sh = shared_of_level ses.lvl ses.gen in
+    let progs = List.map (fun t -> if t = "" then [] else List.map call_of_string (String.split_on_char ';' t))
+        (String.split_on_char '#' ts) in
+    (* a thread with no calls has a dummy Done pc whose return value is not reported *)
+    conc := Some { cf_sh = sh; cf_threads = List.map (thread_init sh.sh_price) progs };
+    "= ok"
+  | "CTRACE" :: toks ->
+    (match !conc with
+     | None -> "= error no config"
+     | Some c ->
+       let tr = List.filter_map (fun tok ->
+           if tok = "" then None else
+             match String.split_on_char '~' tok with
+             | tid :: fields -> Some (nat_of_int (int_of_string tid), ev_of_fields fields)
+             | [] -> None) toks in
+       let (c', bad) = accept mf tr c O in
+       conc := Some c';
+       let sh = c'.cf_sh in
+       let l = level_of_shared sh in
+       ses.lvl <- l; ses.gen <- sh.sh_gen;
+       (match bad with
+        | None ->
+          let rets = String.concat "#" (List.map (fun t ->
+              String.concat "|" (List.map string_of_ret (thread_rets t))) c'.cf_threads) in
+          Printf.sprintf "= accepted quiescent=%d rets=%s %s" (if quiescent c' then 1 else 0) rets (string_of_state l)
+        | Some pos ->
+          let rec to_int = function O -> 0 | S n -> 1 + to_int n in
+          let p = to_int pos in
+          let (tid, e) = List.nth tr p in
+          let exp = (match cstep mf c' tid with
+              | Some (_, e') -> string_of_ev e'
+              | None -> "thread-cannot-move") in
+          Printf.sprintf "= rejected pos=%d thread=%d got=%s expected=%s" p (to_int tid) (string_of_ev e) exp))
+  | ["CDRAIN"; taker] ->
+    (match do_match ses.lvl ses.gen (n_of_string "18446744073709551615") (oid_of_string taker) with
+     | Some (l', g', r) -> ses.lvl <- l'; ses.gen <- g'; "= " ^ string_of_result r ^ " " ^ string_of_state l'
+     | None -> "= nofuel")
   | ["IFACE"] -> Printf.sprintf "= iface=%d asks=%d" (if ses.iface_ok then 1 else 0) ses.asks
   (* ---- stand-alone queue (C19) ---- *)
   | ["QNEW"] -> ses.q <- empty_queue; "= ok"
